@@ -372,6 +372,34 @@ theorem commit_any (s : State) (t : List Rec) (h : AllInv s) (ht : AnyTx s.opt.s
     · exact h.zok x hx
     · exact marked_zok t hz x.1 (by rw [← hex]; exact List.mem_map.mpr ⟨x, hx, rfl⟩)
 
+/-- what a successful `Commit` does to the structures: the transaction's records applied one after another, in
+the order they were queued, to the structures the transaction started from -/
+theorem commit_sv (s : State) (t : List Rec) (h : Shape s) (ht : AnyTx s.opt.seg t) (hok : (commit s t).2 = .ok ()) :
+    sv (commit s t).1 = foldSV (sv s) t true ∧ NoPanic (sv s) t true := by
+  obtain ⟨hne, tid, hr⟩ := ht
+  obtain ⟨hfine, _, _, hsv1, _, _⟩ :=
+    commitLoop_any t tid s h (fun r hr' => ⟨(hr r hr').1, (hr r hr').2.1⟩)
+  have hemp : t.isEmpty = false := by cases t with | nil => exact absurd rfl hne | cons _ _ => rfl
+  have hpan : (buildIdxes (commitLoop s t).1 t).2 = false := by
+    unfold commit at hok
+    simp only [hemp, Bool.false_eq_true, if_false] at hok
+    rw [show commitLoop s t = ((commitLoop s t).1, (commitLoop s t).2) from rfl] at hok
+    simp only [hfine, Bool.not_true, Bool.false_eq_true, if_false] at hok
+    rw [show buildIdxes (commitLoop s t).1 t = ((buildIdxes (commitLoop s t).1 t).1, (buildIdxes (commitLoop s t).1 t).2) from rfl] at hok
+    cases hb : (buildIdxes (commitLoop s t).1 t).2 with
+    | false => rfl
+    | true => rw [hb] at hok; simp at hok
+  have hcommit : (commit s t).1 = (buildIdxes (commitLoop s t).1 t).1 := by
+    unfold commit
+    simp only [hemp, Bool.false_eq_true, if_false]
+    rw [show commitLoop s t = ((commitLoop s t).1, (commitLoop s t).2) from rfl]
+    simp only [hfine, Bool.not_true, Bool.false_eq_true, if_false]
+    rw [show buildIdxes (commitLoop s t).1 t = ((buildIdxes (commitLoop s t).1 t).1, (buildIdxes (commitLoop s t).1 t).2) from rfl]
+    simp only [hpan, Bool.false_eq_true, if_false]
+  obtain ⟨b1, b2, _⟩ := buildIdxes_sv t (commitLoop s t).1 hpan
+  rw [hcommit, b1, hsv1]
+  exact ⟨rfl, by rw [← hsv1]; exact b2⟩
+
 /-! ### `Open` -/
 
 theorem sv_applyKV (s : State) (r : Rec) (fid pos : Nat) : sv (applyKV s r fid pos) = sv s := rfl
